@@ -75,10 +75,15 @@ func cmdFn(args []string) {
 	timeout := fl.Int("t", 10, "solver timeout (s)")
 	verbose := fl.Bool("v", false, "verbose")
 	exact := fl.Bool("exact", false, "exact name match")
+	keep := fl.String("keep", "", "keep SMT files of undischarged obligations in this directory")
 	fl.Parse(args)
 	P := mustLoad(*repo)
 	dir, _ := os.MkdirTemp("", "kvc-")
 	defer os.RemoveAll(dir)
+	if *keep != "" {
+		dir = *keep
+		os.MkdirAll(dir, 0o755)
+	}
 	t0 := time.Now()
 	for _, fn := range sortedFuncs(P) {
 		match := false
@@ -125,6 +130,11 @@ func printResult(res *VerifyResult, verbose bool) {
 					}
 				}
 			}
+		}
+	}
+	if os.Getenv("KVC_FORKS") != "" {
+		for k, v := range res.Exec.lineHash {
+			fmt.Printf("   forks %4d at %s\n", v, k)
 		}
 	}
 	for _, d := range res.Diag {
@@ -176,12 +186,15 @@ func (g *oblGroup) isCover() bool { return strings.HasPrefix(g.obls[0].Kind, "co
 
 func (g *oblGroup) status() string {
 	if g.isCover() {
+		// a cover holds when some instance is satisfiable
+		last := "none"
 		for _, o := range g.obls {
-			if o.Result != "sat" {
-				return "VACUOUS(" + o.Result + ")"
+			if o.Result == "sat" {
+				return "discharged"
 			}
+			last = o.Result
 		}
-		return "discharged"
+		return "VACUOUS(" + last + ")"
 	}
 	worst := "discharged"
 	for _, o := range g.obls {
